@@ -61,6 +61,26 @@ CLAIMED["C15"] = (
     "DESIGN.md section 5 / C15",
 )
 
+CLAIMED["C03"] = (
+    "offline checker over recorded events: JSON documents written by the compiled Go package are checked for structural inhabitation of the generated TypeScript declarations (TypeScript-subset parser + type environment)",
+    "For every type reachable from the analysed file, seeded values are marshalled by the real encoding/json with the generated wrappers compiled in; the documents are logged and checked against the type environment parsed from typescript.Generate's output (property names exact, primitive kinds, null for nil slices/maps, tuple lengths, enum literal sets, Kind/Data shapes); the output itself must parse and every referenced name be declared exactly once. Held on the documents produced; three pinned known findings.",
+    "Trusted: harness/tsmodel (own parser and structural semantics, unit-tested on the repo's samples; no tsc available); Record<K,V> checks key admissibility only.",
+    "DESIGN.md section 5 / C03",
+)
+
+CLAIMED["C09"] = (
+    "ground truth from the real encoding/json in the compiled package vs keys observed in the analysis and in the TypeScript / Dart / SQL-validator outputs; metamorphic pairs compared byte for byte",
+    "Struct-only programs sweep the json-tag alphabet x field kinds; the ordered key list of json.Marshal on fully non-empty values (compiled package, no generated code) minus gomacro:\"ignore\" fields is compared with Exported()/JSONName() and with the keys extracted from the TypeScript interface, the Dart fromJson/toJson and the SQL struct validator; (program, program + added/retyped ignored fields) pairs must give identical texts. Held on the structs produced.",
+    "Trusted: encoding/json as ground truth; key extraction by tsmodel / dartmodel / a pattern on the validator template.",
+    "DESIGN.md section 5 / C09",
+)
+CLAIMED["C07"] = (
+    "hash monitor over repeated executions: same package, fresh loads, fresh processes and the real cmd binary; Go's randomised map iteration as scheduler, observed orders counted",
+    "Every output text of the eight targets is regenerated K times on the same loaded package, k times after fresh loads and in p fresh processes, and the real gomacro command is run repeatedly in config mode; all texts and file sets must be identical. The run records how many distinct map iteration orders it observed. Held on the repetitions made.",
+    "Trusted: sha256/byte comparison; raw generator text (no formatter installed).",
+    "DESIGN.md section 5 / C07",
+)
+
 NOT_YET = "check not built yet (work in progress, see DESIGN.md section 5 for the planned monitor)"
 NOT_APPLICABLE = {}
 
